@@ -10,7 +10,7 @@ RULE = ("each case builds one real System and calls the real assemble() with con
         "'rev' = frame/body - Revolute - body under gravity with Motor / PD / PID / Spring (both forms) / KelvinVoigt / Maxwell "
         "and a random joint-consistent initial velocity; 'chain' = frame - Spherical - body - Revolute/Cylindrical/... - body at rest with a "
         "compliance-form spring; 'contact' = one or two balls (RigidBody / PointMass) on a tilted plane, resting / sliding / "
-        "rolling / opening, mu = 0 or > 0, optional stack with a sphere-sphere contact; 'reject' = the same systems with a "
+        "rolling / opening, mu = 0 or > 0, optional stack with a sphere-sphere contact; 'multi' = 2-3 independent balls on one plane with mixed frictionless / frictional contacts added in a seeded order; actuators optionally together with a compliance-form element; 'reject' = the same systems with a "
         "deliberately inconsistent initial state (velocity violating the joint, penetrating or approaching contact). Decided on "
         "the values returned by assembly (u_dot0, la_g0, la_c0, la_N0, la_F0): equations of motion incl. actuator and "
         "compliance forces, g_ddot = 0, Signorini and Coulomb on acceleration level; inconsistent states must be rejected. "
@@ -25,7 +25,7 @@ META = {
     "technique": "runtime post-condition monitors on System.assemble with residual recomputation",
 }
 CASE_TIMEOUT = 180
-KINDS = ["rev", "rev", "chain", "contact", "contact", "contact", "reject:velocity", "reject:penetration", "reject:approach"]
+KINDS = ["rev", "rev", "chain", "contact", "contact", "multi", "contact", "reject:velocity", "reject:penetration", "reject:approach"]
 ACT = ["none", "Motor", "PD", "PID", "Spring:force", "Spring:compliance", "KelvinVoigt:compliance", "KelvinVoigt:force", "Maxwell"]
 GRAV = np.array([0.0, 0.0, -9.81])
 
@@ -149,6 +149,14 @@ def _build_rev(rng, ctx, det, act, inconsistent=False):
         e, linfo = forcegen.make_law(rng, act, joint)
         det.update(linfo)
         system.add(e)
+    if act in ("Motor", "PD", "PID") and rng.random() < 0.5:
+        # actuator AND a compliance-form element in the same system (both enter the initial equations of motion)
+        law2 = ["Spring:compliance", "KelvinVoigt:compliance"][int(rng.integers(2))]
+        e2, linfo2 = forcegen.make_law(rng, law2, joint)
+        e2.name = "extra_compliance"
+        system.add(e2)
+        det["extra_compliance"] = law2
+        ctx.cls("rev:actuator+compliance")
     system.assemble(options=gen.no_cic_options())
     model = forcegen.RevoluteModel(system, joint, subs, mots)
     ind = 0 if getattr(subs[1], "nq", 0) else 1
@@ -258,6 +266,51 @@ def _build_contact(rng, ctx, det, bad=None):
     return system
 
 
+def _build_multi(rng, ctx, det):
+    """2-3 independent balls on one plane; each contact has its own friction coefficient (0 or > 0), mass and scenario
+    (rest / slide), and the contacts are added in a seeded order - the bookkeeping between active normal contacts and their
+    friction laws must not mix them up"""
+    from cardillo import System
+    from cardillo.discrete import Frame, RigidBody, PointMass
+    from cardillo.contacts import Sphere2Plane
+    from cardillo.forces import Force
+    from vlib.oracles import rodrigues
+    system = System()
+    tilt = float(rng.uniform(0, 0.3)) if rng.random() < 0.5 else 0.0
+    ax = random_unit(rng); ax[2] = 0; ax = ax / (np.linalg.norm(ax) + 1e-300)
+    A = rodrigues(ax * tilt) @ rodrigues(np.array([0, 0, 1.0]) * rng.uniform(0, 6))
+    n, t1, t2 = A[:, 2], A[:, 0], A[:, 1]
+    r0 = rng.normal(size=3)
+    plane = Frame(r_OP=r0, A_IB=A, name="plane")
+    system.add(plane)
+    nb = int(rng.integers(2, 4))
+    mus = [0.0 if rng.random() < 0.5 else float(rng.uniform(0.1, 1.0)) for _ in range(nb)]
+    if all(m > 0 for m in mus) or all(m == 0 for m in mus):
+        mus[0], mus[-1] = 0.0, float(rng.uniform(0.1, 1.0))          # always a mixture
+    items = []
+    for i in range(nb):
+        R = float(rng.uniform(0.1, 0.4))
+        m = float(loguniform(rng, 0.1, 10))
+        pos = r0 + (3.0 * i + rng.normal() * 0.2) * t1 + rng.normal() * t2 + R * n
+        scen = ["rest", "slide"][int(rng.integers(2))]
+        vt = (rng.normal() * t1 + rng.normal() * t2) * 2 if scen == "slide" else np.zeros(3)
+        if rng.random() < 0.5:
+            P = rng.normal(size=4); P /= np.linalg.norm(P)
+            ball = RigidBody(m, 0.4 * m * R * R * np.eye(3), q0=np.concatenate([pos, P]), u0=np.concatenate([vt, np.zeros(3)]), name=f"ball{i}")
+        else:
+            ball = PointMass(m, q0=pos, u0=vt, name=f"ball{i}")
+        con = Sphere2Plane(plane, ball, mus[i], r=R, e_N=0.0, e_F=0.0, name=f"s2p{i}")
+        items.append((ball, con, Force(m * GRAV, ball, name=f"grav{i}"), {"mu": mus[i], "m": m, "scenario": scen}))
+    for ball, _, grav, _ in items:
+        system.add(ball, grav)
+    order = rng.permutation(nb)
+    for i in order:
+        system.add(items[int(i)][1])
+    det.update({"balls": [it[3] for it in items], "contact_order": [int(i) for i in order], "tilt": tilt})
+    ctx.cls("multi:frictionless_before_frictional" if any(mus[int(order[a])] == 0 and mus[int(order[b])] > 0 for a in range(nb) for b in range(a + 1, nb)) else "multi:other_order")
+    return system
+
+
 def run_case(spec, ctx):
     env.import_cardillo()
     from cardillo.solver import SolverOptions
@@ -272,6 +325,8 @@ def run_case(spec, ctx):
                 system = _build_chain(rng, ctx, det)
             elif kind == "contact":
                 system = _build_contact(rng, ctx, det)
+            elif kind == "multi":
+                system = _build_multi(rng, ctx, det)
             elif sub == "velocity":
                 system = _build_rev(rng, ctx, det, "none", inconsistent=True)
             else:
@@ -303,3 +358,11 @@ def run_case(spec, ctx):
         _residuals(ctx, system, det, contact=system.nla_N > 0)
     ctx.sig([det], nontrivial=bool(np.any(system.u_dot0)) or bool(np.any(system.la_g0)))
     ctx.sample(det)
+
+
+def finalize(agg):
+    reasons = []
+    for k in ("rev:actuator+compliance", "multi:frictionless_before_frictional", "friction:slip"):
+        if agg["classes"].get(k, 0) == 0:
+            reasons.append(f"input class {k} never reached")
+    return reasons
